@@ -86,11 +86,80 @@ func (x *Exec) libCall2(s *State, site ssa.Instruction, fn *ssa.Function, name s
 		x.used(name + " (no effect on verified state)")
 		k(s, x.freshResult(s, site, res))
 		return true
-	case "net.LookupIP", "(net.IP).String":
+	case "golang.org/x/crypto/ssh.ParseAuthorizedKey":
+		// ParseAuthorizedKey(in) skips blank, comment and unparsable lines and
+		// returns the first key it finds, or an error iff no key is left.
+		x.used(name + ": returns the first key of the remaining input and the bytes after its line; errs iff the remaining input contains no key; comments / blank / unparsable lines are skipped")
+		var in *Term
+		if sv, ok := args[0].(*SliceV); ok {
+			in = x.E.sliceBytes(s, sv)
+		} else {
+			in = x.freshStr(s, site, "in")
+		}
+		has := UF("ufb_ak_haskey", SBool, in)
+		first := UF("ufs_ak_first", SString, in)
+		rest := UF("ufs_ak_rest", SString, in)
+		s.assume(Implies(Eq(StrLen(in), Int(0)), Not(has)))
+		s.assume(Implies(has, Lt(StrLen(rest), StrLen(in))))
+		// definition of "key K is listed in file F", unfolded at this input
+		K := Var("K!ak", SString)
+		s.assume(Forall([]*Term{K}, Eq(UF("ufb_ak_listed", SBool, in, K), And(has, Or(Eq(first, K), UF("ufb_ak_listed", SBool, rest, K))))))
+		e := x.freshErr(s, site, "pak.err")
+		s.assume(Eq(e.Nil, has))
+		keyID := x.freshInt(s, site, "key$id")
+		s.assume(Eq(UF("ufs_key_marshal", SString, keyID), first))
+		key := &IfaceV{Nil: Not(has), Opaque: keyID, Typ: res.At(0).Type()}
+		o := x.E.storeObject(x.siteTag(site)+":rest", types.NewArray(types.Typ[types.Byte], 0), false, "arr")
+		s.heap[o.id] = &ArrV{Elem: types.Typ[types.Byte], IsStr: true, T: rest}
+		restV := &SliceV{Nil: TFalse, Obj: o, Off: Int(0), Len: StrLen(rest), Cap: StrLen(rest), Elem: types.Typ[types.Byte]}
+		var facts []*Term
+		opts := x.E.freshVal(res.At(2).Type(), x.siteTag(site)+".opts", &facts)
+		for _, f := range facts {
+			s.assume(f)
+		}
+		k(s, &TupleV{E: []Val{key, x.freshStr(s, site, "comment"), opts, restV, e}})
+		return true
+	case "golang.org/x/crypto/ssh.FingerprintSHA256":
 		x.used(name)
+		k(s, x.freshStr(s, site, "fp"))
+		return true
+	case "net.LookupIP":
+		// every returned address is one the host name resolves to
+		x.used(name + ": every returned IP is an address of the host (ufb_resolves)")
+		r := x.freshResult(s, site, res).(*TupleV)
+		if sv, ok := r.E[0].(*SliceV); ok && sv.Obj != nil {
+			av := x.E.objVal(s, sv.Obj).(*ArrV)
+			i := Var("i!ip", SInt)
+			s.assume(Forall([]*Term{i}, Implies(And(Ge(i, Int(0)), Lt(i, sv.Len)), UF("ufb_resolves", SBool, T(0), UF("ufs_ipstr", SString, Select(av.T, i))))))
+		}
+		k(s, r)
+		return true
+	case "(net.IP).String":
+		x.used(name + ": textual form of the address (ufs_ipstr)")
+		if sv, ok := args[0].(*SliceV); ok {
+			k(s, UF("ufs_ipstr", SString, x.E.sliceBytes(s, sv)))
+			return true
+		}
 		k(s, x.freshResult(s, site, res))
 		return true
 	}
 	_ = types.Typ
 	return false
+}
+
+func init() {
+	// akListed(F, K): key K (wire encoding) is listed in authorized-keys text F.
+	// Base case of the definition; the recursive case is unfolded by the
+	// ParseAuthorizedKey model at each input it is called on.
+	specDefs["akListed"] = func(env *SpecEnv, args []Val) Val {
+		f, ok1 := env.scalar(args[0])
+		k, ok2 := env.scalar(args[1])
+		if !ok1 || !ok2 {
+			env.errf("akListed needs (bytes, string)")
+			return TFalse
+		}
+		K := Var("K!akb", SString)
+		env.s.assume(Forall([]*Term{K}, Not(UF("ufb_ak_listed", SBool, Str(""), K))))
+		return UF("ufb_ak_listed", SBool, f, k)
+	}
 }
